@@ -71,6 +71,13 @@ func genRemote() {
 	emit("newHTTPNode", tf, "NewHTTPNode", nil)
 	emit("httpReadContext", tf, "HTTPNode.ReadContext", nil)
 	emit("newNode", tf, "NewNode", nil)
+	// the cache key of an http node: the checksum of the WHOLE location string (the entrypoint as given:
+	// scheme, host, path, query) plus a readable prefix; how the key becomes the three file names
+	emit("cacheKey", tf, "HTTPNode.CacheKey", nil)
+	emit("httpLocation", tf, "HTTPNode.Location", nil)
+	emit("cacheFilePath", tf, "CacheNode.filePath", nil)
+	emit("checksumFn", tf, "checksum", nil)
+	emit("httpResolveEntrypoint", tf, "HTTPNode.ResolveEntrypoint", nil)
 	emit("readTaskfile", root, "Executor.readTaskfile", nil)
 	emit("prompt", lg, "Logger.Prompt", nil)
 	// only the guards of Validate that concern the remote flags (package-level variables of internal/flags)
@@ -198,7 +205,7 @@ func newNormalizer(fd *ast.FuncDecl) *normalizer {
 	}
 	ast.Inspect(fd.Body, func(n ast.Node) bool {
 		id, ok := n.(*ast.Ident)
-		if !ok || id.Obj == nil {
+		if !ok || id.Obj == nil || id.Name == "_" { // the blank identifier stays `_`
 			return true
 		}
 		if _, seen := nz.pos[id.Obj]; seen {
